@@ -28,6 +28,9 @@ func rulesC02(c *Ctx) {
 	ruleHandleReferencesTable(c)
 	ruleNHGReferences(c)
 	ruleInstallRefs(c)
+	ruleOptionProbes(c, "rib", 4)    // the switches of the resolvability gate and of forward references
+	ruleOptionProbes(c, "server", 5) // … and the server options that set them
+	ruleServerWiring(c, []string{"DisableRIBCheckFn", "WithNoRIBForwardReferences"})
 }
 
 // optionAppends lists the option constructors appended to the slice passed to NewRIBHolder in fn.
